@@ -80,7 +80,9 @@ GCtrl ==
     \/ CallPonderHit /\ Keep /\ Log("call.ponderhit", "c", 0, IF Searching /\ limits = "ponder" THEN "timer" ELSE "none")
     \* the calls that only look at the lifecycle: IsSearching itself, and ClearHash / ResizeCache (refused exactly while
     \* IsSearching) and IsReady (answered in every state)
-    \/ \E q \in {"issearching", "clearhash", "resize", "isready"} : CallIsSearching /\ Keep /\ Log("call.query", "c", 0, q)
+    \* ... and "setopt": a configuration option is set (at the wire: setoption + a configuration print-out); it must take
+    \* effect whenever no started search is unanswered - also while the answering search has not yet released itself
+    \/ \E q \in {"issearching", "clearhash", "resize", "isready", "setopt"} : CallIsSearching /\ Keep /\ Log("call.query", "c", 0, q)
 
 \* ---------------------------------------------------------------- search goroutine
 GRunWork(g) ==
@@ -167,8 +169,8 @@ Goal(n) ==
       [] n = 11 -> last.l = "call.query" /\ last.x \in {"clearhash", "resize"} /\ \E g \in SIds : spc[g] \in {"send", "rel"}   \* hash cleared / resized while a result is being sent
       [] n = 12 -> last.l = "r.try.fail" /\ armed /\ stopFlag /\ \E g \in SIds : spc[g] = "work" /\ ~selfend[g]
                                                                                      \* a start request is issued and rejected while the running search has not yet seen the stop of its own timer
-      [] n = 13 -> last.l = "c.start.rel" /\ \E g \in SIds : spc[g] = "rejected" /\ \E h \in SIds : spc[h] = "done" /\ stopFlag /\ lastSetter[1] = "ctrl"
-                                                                                     \* (never: the controller cannot start while its own stop is pending - a goal TLC must NOT reach)
+      [] n = 13 -> last.l = "call.query" /\ last.x = "setopt" /\ \E g \in SIds : spc[g] = "rel" /\ Len(results) = Cardinality(accepted)
+                                                                                     \* an option is set between a search's answer and its release (the GUI has its bestmove: the moment is protocol-valid)
       [] OTHER -> FALSE
 NoGoal1 == ~Goal(1)
 NoGoal2 == ~Goal(2)
